@@ -504,6 +504,17 @@ func runC07(c *eng.Ctx) {
 			&Spec{Regs: []Reg{mkReg("Leaf_K1_a", godi.Scoped, withAs("IK1", "IA")), rm("IA", ""), mkReg("InU_0_2_Iface", life)}},
 		)
 	}
+	// two dependencies of one element type in one parameter object: two groups, or a single service
+	// plus a group - the scoped registration sits behind the LATER field
+	for _, life := range []godi.Lifetime{godi.Singleton, godi.Transient} {
+		directed = append(directed,
+			&Spec{Regs: []Reg{mkReg("Leaf_K1_a", godi.Singleton, withGroup("g")), mkReg("Leaf_K1_b", godi.Scoped, withGroup("h")), mkReg("InGG_K0", life)}},
+			&Spec{Regs: []Reg{mkReg("Leaf_K1_a", godi.Singleton), mkReg("Leaf_K1_b", godi.Scoped, withGroup("g")), mkReg("InSG_K0", life)}},
+			&Spec{Regs: []Reg{mkReg("Leaf_K1_a", godi.Singleton), mkReg("Leaf_K1_b", godi.Scoped, withGroup("g")), mkReg("TwiceIn_K2", life)}},
+			// control: the scoped member behind the FIRST field
+			&Spec{Regs: []Reg{mkReg("Leaf_K1_a", godi.Scoped, withGroup("g")), mkReg("Leaf_K1_b", godi.Singleton, withGroup("h")), mkReg("InGG_K0", life)}},
+		)
+	}
 	// the set that matters is the final one: a Build in the middle must not make a difference
 	for _, life := range []godi.Lifetime{godi.Singleton, godi.Transient} {
 		directed = append(directed,
